@@ -605,22 +605,35 @@ pub fn gen_req(r: &mut Rng) -> ReqHead {
         fields[k].name = case_variant(r, "Referer");
         fields[k].value = b"https://example.org/a?b=c".to_vec();
     }
+    if n > 1 && r.chance(1, 6) {
+        // a second (third) Cookie / Referer line, any letter case, anywhere
+        for _ in 0..r.range(1, 2) {
+            let k = r.below(fields.len() as u64) as usize;
+            if r.chance(2, 3) {
+                fields[k].name = case_variant(r, "Cookie");
+                fields[k].value = cookie_value(r);
+            } else {
+                fields[k].name = case_variant(r, "Referer");
+                fields[k].value = b"https://second.example/".to_vec();
+            }
+        }
+    }
     if n > 0 && r.chance(1, 2) {
         let k = r.below(fields.len() as u64) as usize;
         fields[k].name = case_variant(r, "Accept-Language");
     }
-    // at most one Cookie / Referer (mostly); the first Accept-Language field carries the structured list
+    // Cookie / Referer lines may repeat (the pool and the two insertions above produce duplicates); the first Accept-Language field carries the structured list
     let mut seen_ck = false;
     let mut seen_rf = false;
     let mut seen_al = false;
     for f in fields.iter_mut() {
         if f.name.eq_ignore_ascii_case(b"cookie") {
-            if seen_ck && r.chance(9, 10) {
+            if seen_ck && r.chance(1, 2) {
                 f.name = b"X-Cookie2".to_vec();
             }
             seen_ck = true;
         } else if f.name.eq_ignore_ascii_case(b"referer") {
-            if seen_rf && r.chance(9, 10) {
+            if seen_rf && r.chance(1, 2) {
                 f.name = b"X-Referer2".to_vec();
             }
             seen_rf = true;
@@ -829,6 +842,22 @@ pub fn run(ctx: &mut Ctx) {
         for o2 in OWS {
             emit_hreq(ctx, &env, &simple_req("GET", 1, vec![fld("Host", o1, "a b", o2), fld("Empty", o1, "", o2)]), b"", true);
             emit_hres(ctx, &env, &ResHead { ver: 1, status: b"200".to_vec(), reason: b"OK".to_vec(), fields: vec![fld("Server", o1, "s/1", o2)] }, b"", true);
+        }
+    }
+    // 2c'. two and three Cookie / Referer lines: every letter-case pair x positions around a Host line
+    {
+        let cases = ["Cookie", "cookie", "COOKIE"];
+        let vals = ["a=1; b", "c=3", " ;d = 4 ;", ""];
+        for (i, c1) in cases.iter().enumerate() {
+            for c2 in cases {
+                for pos in 0..3 {
+                    let mut fs = vec![fld(c1, " ", vals[i], ""), fld(c2, " ", vals[(i + 1) % 4].trim(), ""), fld("Cookie", "", vals[(i + 2) % 4].trim(), " ")];
+                    fs.insert(pos, fld("Host", " ", "h", ""));
+                    fs.insert(pos + 1, fld(if pos == 1 { "REFERER" } else { "Referer" }, " ", "r1", ""));
+                    fs.push(fld("referer", " ", "r2", ""));
+                    emit_hreq(ctx, &env, &simple_req("GET", 1, fs), b"", true);
+                }
+            }
         }
     }
     // 2d. line lengths around the limits (request line, header line), header counts around 100
